@@ -23,6 +23,10 @@ FILENAMES = {"C": "x.c", "C++": "x.cpp", "C#": "x.cs", "Java": "x.java", "JavaSc
 # "\r", form feed and U+2028 are line boundaries for str.splitlines() but NOT for the tool (lines are "\n"-separated)
 ALPHABET = ["a", " ", "\n", "\t", "(", '"', "'", "#", "/", "*", "\\", "é", "\r", "\x0c", "\u2028"]
 
+# a second, small alphabet of identifier characters that are NOT stable under Unicode normalisation (combining accent, Ohm and
+# Angstrom signs, ligature, micro sign, full-width letter): the token text must be the text found in the file, not a normal form of it
+UNI_ALPHABET = ["a", "\u0301", "\u2126", "\u212b", "\ufb01", "\u00b5", "\uff41", " ", "\n", "("]
+
 EXTRA_TEXTS = [
     "x = 1\x0cy = 2\n\x0c\ndef f():\n    return 1\x0b\n",
     "a\x85b\x1cc\x1dd\x1ee\u2029f\n(g)\n",
@@ -156,7 +160,9 @@ def _block(block, agg):
                     agg.violation(k, dict(sig, family="long-equal-length-texts"), {"language": lang, "long": [length, n]}, d)
                 del text
         return
-    if first is None:
+    if first == "UNI":
+        it = list(texts(n, UNI_ALPHABET))
+    elif first is None:
         it = list(EXTRA_TEXTS)
     else:
         it = (first + "".join(t) for k in range(0, n) for t in itertools.product(alphabet, repeat=k))
@@ -181,7 +187,8 @@ def replay(case):
 def run(ctx: core.Ctx):
     n = ctx.pick(4, 6)
     alphabet = ALPHABET if n <= 4 else [a for a in ALPHABET if a not in ("\t", "é", "\r", "\u2028", "*")]
-    ctx.bounds = {"max_text_length": n, "alphabet": alphabet, "languages": list(FILENAMES), "extra_texts": len(EXTRA_TEXTS)}
+    ctx.bounds = {"max_text_length": n, "alphabet": alphabet, "languages": list(FILENAMES), "extra_texts": len(EXTRA_TEXTS),
+                  "unicode_identifier_family": {"alphabet": UNI_ALPHABET, "max_text_length": ctx.pick(3, 4)}}
     if n > 5:
         ctx.bounds["also"] = {"max_text_length": 5, "alphabet": ALPHABET}
     ctx.rule = ("case = (language, text, filter_comments): every text of length <= max_text_length over the alphabet (and for the thorough tier "
@@ -191,6 +198,7 @@ def run(ctx: core.Ctx):
     for lang in FILENAMES:
         blocks.append((lang, 0, alphabet, None))
         blocks.append((lang, ctx.pick(30, 120), None, "LONG"))
+        blocks.append((lang, ctx.pick(3, 4), None, "UNI"))
         for first in alphabet:
             blocks.append((lang, n, alphabet, first))
         if n > 5:
